@@ -54,3 +54,27 @@ func (s *AbsfsNFS) VerifSetMaxHandles(max int) { s.fileMap.maxHandles = max }
 
 // VerifFileMap exposes the server's handle table.
 func (s *AbsfsNFS) VerifFileMap() *FileHandleMap { return s.fileMap }
+
+// VerifNewHandler builds a Server (not listening) and its NFSProcedureHandler around nfs.
+func VerifNewHandler(nfs *AbsfsNFS) (*Server, *NFSProcedureHandler) {
+	srv, _ := NewServer(ServerOptions{Name: "verif", Port: 0, Hostname: "localhost"})
+	srv.SetHandler(nfs)
+	return srv, &NFSProcedureHandler{server: srv}
+}
+
+// VerifWriteVerf returns the server's write verifier.
+func (s *Server) VerifWriteVerf() [8]byte { return s.writeVerf }
+
+// VerifAttrCacheSize / VerifDirCacheSize report the number of cached entries.
+func (s *AbsfsNFS) VerifAttrCacheSize() int { return s.attrCache.Size() }
+func (s *AbsfsNFS) VerifDirCacheSize() int {
+	if s.dirCache == nil {
+		return -1
+	}
+	return s.dirCache.Size()
+}
+
+// VerifLockPolicy / VerifUnlockPolicy hold the policy write lock, which puts the server in the
+// "policy drain" state deterministically.
+func (s *AbsfsNFS) VerifLockPolicy()   { s.policyRWMu.Lock() }
+func (s *AbsfsNFS) VerifUnlockPolicy() { s.policyRWMu.Unlock() }
